@@ -361,6 +361,23 @@ def _bad_stored(case, R, d):
         ok = _must_raise(R, "reject", "load_tree:" + k, lambda: cfg2.load_tree({"s": value, "other": 9}),
                          "load_tree with stored secret %r" % (value,))
         R.check(cfg2.s == "previous", "reject", "load_tree-kept:" + k, "secret became %r after a rejected load" % (cfg2.s,))
+    # the rejection happens INSIDE a session that stays open (the configuration's own key context, held by the caller):
+    # that session must go on inverting exactly afterwards
+    cfg3 = schema(key_filename=keyfile)
+    with cfg3._keyfile as outer:
+        before = outer.encrypt(text, method="aes")
+        try:
+            schema.s.to_python(cfg3, value)
+        except Exception:
+            pass
+        try:
+            back = outer.decrypt(before)
+            again = outer.decrypt(outer.encrypt(text, method=case["method"]))
+        except Exception as exc:
+            back = again = exc
+        want = text.encode() if isinstance(text, str) else text
+        R.check(back == want and again == want, "invert", "open-session-after-reject:" + k,
+                lambda: "inside a still open session, after SecureField.to_python rejected a damaged value: decrypt gives %r / %r, want %r" % (back, again, want))
 
 
 def _aes_blob(case, R, d):
